@@ -49,6 +49,9 @@ func (x *ctx) check(op string, got *curve.EdwardsPoint, want ref.Pt, detail func
 	x.r.Hist("op/" + op)
 	if !bytes.Equal(enc(got), ref.Encode(want)) {
 		x.r.Violate("group/"+op, fmt.Sprintf("%s: got %x want %x; %s", op, enc(got), ref.Encode(want), detail()), x.c)
+	} else if !coordsConsistent(got) {
+		// the encoding only reads X, Y, Z: a result whose T is not XY/Z is a latent wrong operand
+		x.r.Violate("group/"+op+"/extended-coordinates", fmt.Sprintf("%s: result encodes correctly but its extended coordinates are inconsistent (T*Z != X*Y); %s", op, detail()), x.c)
 	}
 }
 
